@@ -16,7 +16,12 @@ while IFS= read -r line; do
   src=$(basename "$src")
   mkdir -p "$(dirname "$dst")"; cp "$OUT/$src" "$dst"
 done < "$OUT/demo_paths.txt"
-DEMO=$(python3 -c "import json;print(json.load(open('$OUT/meta.json'))['demo_cmd'])")
+# the demo command may come wrapped in its own unshare/cd: keep only the go test part
+DEMO=$(python3 -c "
+import json,re
+c=json.load(open('$OUT/meta.json'))['demo_cmd']
+m=re.search(r'go test[^\"]*', c)
+print('GOPROXY=off '+m.group(0).strip() if m else c)")
 run() { unshare -n sh -c "ip link set lo up; export GOPROXY=off; $1" ; }
 echo "== demo on clean tree: $DEMO"
 run "$DEMO" > /tmp/confirm/$NAME.clean.log 2>&1; c1=$?
